@@ -541,6 +541,14 @@ func TestC19(t *testing.T) {
 			st.Count("push_service_setup_failed", 1)
 		}
 	}
+	if len(st.Violations) == 0 {
+		st.Count("push_service_keep_cases", 1)
+		if what := pushServiceKeepsPushers(t, Seed()); what != "" && !strings.HasPrefix(what, "setup:") {
+			violate("pusher-restarted-needlessly", what, "push service; publish m1 (POST held); create three other subscriptions; answer 204; 100 s")
+		} else if what != "" {
+			st.Count("push_service_setup_failed", 1)
+		}
+	}
 	// "pushed again after the back-off": the back-off itself, for attempt counts only an endpoint that has
 	// been failing for days reaches
 	if len(st.Violations) == 0 {
@@ -740,6 +748,92 @@ func pushServiceRestarts(t *testing.T, seed int64) (what string) {
 		open, _ := w.Client.Delivery.Query().Where(delivery.CompletedAtIsNil()).Count(qctx)
 		if got[m1] == 0 || len(got) < 2 || open > 0 {
 			what = fmt.Sprintf("the pusher of a push subscription died of a storage error after its endpoint had answered 500; 200 s later the refused message was pushed again %d times, %d distinct messages were pushed in all (2 published since), %d deliveries are still unacknowledged: the push service did not start the pusher again", got[m1], len(got), open)
+		}
+		cancel()
+		synctest.Wait()
+		_ = svc.Cleanup(context.Background())
+	})
+	return
+}
+
+// pushServiceKeepsPushers: while the push service is running, changes to *other* subscriptions (each
+// makes the service look at its pushers again) and its periodic rounds leave a running pusher alone: a
+// request in flight is not aborted, and a message the endpoint then answers with 204 is pushed once.
+func pushServiceKeepsPushers(t *testing.T, seed int64) (what string) {
+	synctest.Test(t, func(t *testing.T) {
+		w := NewWorld(t, seed)
+		defer w.Close()
+		w.Exec(Op{K: "create_topic", Topic: "t"})
+		w.Exec(Op{K: "create_sub", Sub: "push", Cfg: &SubCfg{Topic: "t", TTL: 24 * 3600 * Sec, MTTL: 3600 * Sec, MinB: Sec, MaxB: 2 * Sec, Push: "http://push.test/x"}})
+		rt := &scriptedRT{reqs: make(chan *pushReq)}
+		oldT := http.DefaultTransport
+		http.DefaultTransport = rt
+		defer func() { http.DefaultTransport = oldT }()
+		w.Ctl.mu.Lock()
+		w.Ctl.tick = 0
+		w.Ctl.mu.Unlock()
+		ctx, cancel := context.WithCancel(WithLabel(context.Background(), "push"))
+		defer cancel()
+		svc := services.NewHttpPushServiceForVerif()
+		if err := svc.Initialize(ctx, w.Client); err != nil {
+			t.Fatal(err)
+		}
+		ready := make(chan struct{})
+		done := make(chan error, 1)
+		go func() { done <- svc.Start(ctx, ready) }()
+		synctest.Wait()
+		select {
+		case <-ready:
+		default:
+			what = "setup: the push service did not become ready"
+			return
+		}
+		next := func() *pushReq {
+			synctest.Wait()
+			select {
+			case r := <-rt.reqs:
+				return r
+			default:
+				return nil
+			}
+		}
+		w2 := *w
+		w2.execInner(Op{K: "publish", Topic: "t", Msgs: []MsgSpec{{N: 1}}}, &Result{T: w.Now()})
+		var r1 *pushReq
+		for tries := 0; tries < 40 && r1 == nil; tries++ {
+			if r1 = next(); r1 == nil {
+				time.Sleep(250 * time.Millisecond)
+			}
+		}
+		if r1 == nil {
+			what = "setup: the message was not pushed"
+			return
+		}
+		m1 := r1.body.Message.MessageID
+		// while the request is in flight: other subscriptions come and go, and more than a minute passes
+		posts := map[string]int{m1: 1}
+		for i := 0; i < 3; i++ {
+			w3 := *w
+			w3.execInner(Op{K: "create_sub", Sub: fmt.Sprintf("other%d", i), Cfg: &SubCfg{Topic: "t", TTL: 24 * 3600 * Sec, MTTL: 3600 * Sec}}, &Result{T: w.Now()})
+			time.Sleep(300 * time.Millisecond)
+			if r := next(); r != nil {
+				posts[r.body.Message.MessageID]++
+				r.respond <- pushResp{code: 204}
+			}
+		}
+		r1.respond <- pushResp{code: 204}
+		for tries := 0; tries < 200; tries++ {
+			r := next()
+			if r == nil {
+				time.Sleep(500 * time.Millisecond)
+				continue
+			}
+			posts[r.body.Message.MessageID]++
+			r.respond <- pushResp{code: 204}
+		}
+		synctest.Wait()
+		if posts[m1] != 1 {
+			what = fmt.Sprintf("push service running; one message, its POST in flight while three other (pull) subscriptions are created; the endpoint then answers 204: the message was POSTed %d times in all (a running pusher was stopped and started again, the request in flight aborted)", posts[m1])
 		}
 		cancel()
 		synctest.Wait()
